@@ -147,8 +147,30 @@ def op_run(op, cfg, state, seed, keyname):
         view = getattr(cfg, op[1])
         how = op[2]
         key = next(iter(view), None)
+        if how.startswith("value_"):
+            # mutation through a value handed out by the mapping: the step lists of the structured settings
+            lkeys = [k for k in view if isinstance(view[k], list)]
+            if not lkeys:
+                return ("rejected", "no list value")
+            key = lkeys[seed % len(lkeys)]
         try:
-            if how == "setitem":
+            if how == "value_iadd":
+                view[key] += [("mask", True)]
+            elif how == "value_append":
+                view[key].append(("mask", True))
+            elif how == "value_reverse":
+                if len(view[key]) < 2:
+                    return ("rejected", "nothing to reverse")
+                view[key].reverse()
+            elif how == "value_clear":
+                if not view[key]:
+                    return ("rejected", "already empty")
+                view[key].clear()
+            elif how == "value_setitem":
+                if not view[key]:
+                    return ("rejected", "already empty")
+                view[key][0] = ("mask", True)
+            elif how == "setitem":
                 view[key] = 1
             elif how == "delitem":
                 del view[key]
@@ -266,7 +288,7 @@ def gen_ops(rng, has_rsa, n):
         elif r < 0.9:
             ops.append(("transform", rng.choice(["get", "submit", "response"])))
         else:
-            ops.append(("mutate", rng.choice(VIEWS), rng.choice(["setitem", "delitem", "update", "clear", "setdefault", "pop"])))
+            ops.append(("mutate", rng.choice(VIEWS), rng.choice(["setitem", "delitem", "update", "clear", "setdefault", "pop", "value_iadd", "value_append", "value_reverse", "value_clear", "value_setitem"])))
     return ops
 
 
